@@ -1,5 +1,6 @@
 import MsiProofs.Lemmas.ExprLex
 import MsiModel.QueryFmt
+import MsiModel.StmtLex
 /-
 C19 for the statements, from characters: a reader of the printed TEXT of `UPDATE`, `DELETE` and
 `INSERT` statements (`QueryFmt.fmtUpdate` / `fmtDelete` / `fmtInsert`, the models of the three
@@ -12,23 +13,12 @@ literal token), `, ` between assignments, values and rows, and after ` WHERE ` t
 reader of C19 (`readText`) on the rest of the text.
 -/
 namespace MsiProofs.StmtLex
-open MsiModel MsiProofs.ExprLex MsiModel.QueryFmt
-
-/-- strip a fixed prefix -/
-def strip : List Char → List Char → Option (List Char)
-  | [], s => some s
-  | _ :: _, [] => none
-  | p :: ps, c :: cs => if p = c then strip ps cs else none
+open MsiModel MsiProofs.ExprLex MsiModel.QueryFmt MsiModel.StmtLex
 
 theorem strip_append (p s : List Char) : strip p (p ++ s) = some s := by
   induction p with
   | nil => cases s <;> rfl
   | cons a p ih => simp [strip, ih]
-
-/-- the longest prefix of characters satisfying `p`, and the rest -/
-def spanP (p : Char → Bool) : List Char → List Char × List Char
-  | [] => ([], [])
-  | c :: r => if p c then ((spanP p r).1.cons c, (spanP p r).2) else ([], c :: r)
 
 /-- the text that follows does not continue the run -/
 def Stops (p : Char → Bool) (rest : List Char) : Prop := ∀ c r, rest = c :: r → p c = false
@@ -50,28 +40,6 @@ theorem spanP_append (p : Char → Bool) (n rest : List Char) (hn : ∀ c ∈ n,
     simp [spanP, ha, this]
 
 /-! ### literals -/
-
-def litChar (c : Char) : Bool := c != ',' && c != ' ' && c != ')'
-def notQuote (c : Char) : Bool := c != '"'
-
-/-- cut one literal off the front of the text -/
-def takeLit : List Char → Option (List Char × List Char)
-  | [] => none
-  | c :: r =>
-    if c = '"' then
-      match (spanP notQuote r).2 with
-      | [] => none
-      | _ :: rest => some ('"' :: (spanP notQuote r).1 ++ ['"'], rest)
-    else some (spanP litChar (c :: r))
-
-/-- one literal value and the text after it -/
-def readLit (s : List Char) : Option (Value × List Char) :=
-  match takeLit s with
-  | none => none
-  | some (chunk, rest) =>
-    match lex chunk with
-    | some [.lit v] => some (v, rest)
-    | _ => none
 
 theorem lex_display (v : Value) (s : List Char) (h : v.display = some s) : lex s = some [.lit v] := by
   have := lex_lit v s h [] [] follow_nil (by rw [lexFrom_nil]; rfl)
@@ -169,19 +137,6 @@ theorem strip_comma_where (x : List Char) : strip ", ".toList (" WHERE ".toList 
   show strip (',' :: [' ']) (' ' :: ("WHERE ".toList ++ x)) = none
   simp [strip]
 
-/-- what follows the table name: nothing, or ` WHERE ` and an expression to the end -/
-def readWhereText (s : List Char) : Option (Option Ast) :=
-  match strip " WHERE ".toList s with
-  | some r => (readText r).map some
-  | none => match s with
-    | [] => some none
-    | _ => none
-
-def readDeleteText (s : List Char) : Option (List Char × Option Ast) :=
-  match strip "DELETE FROM ".toList s with
-  | none => none
-  | some r => (readWhereText (spanP isIdChar r).2).map fun c => ((spanP isIdChar r).1, c)
-
 /-- the conditions in the domain of the lexical theorem -/
 def GoodCond : Option Ast → Prop
   | none => True
@@ -222,38 +177,6 @@ theorem readDeleteText_fmt (t : List Char) (cond : Option Ast) (ht : IdChars t) 
     rfl
 
 /-! ### UPDATE -/
-
-/-- assignments `c = v, c = v, ...`, then either the end or ` WHERE ` and the text after it -/
-def readAssignsText : Nat → List Char → Option (List (List Char × Value) × Option (List Char))
-  | 0, _ => none
-  | fuel + 1, s =>
-    match strip " = ".toList (spanP isIdChar s).2 with
-    | none => none
-    | some r2 =>
-      match readLit r2 with
-      | none => none
-      | some (v, r3) =>
-        match strip ", ".toList r3 with
-        | some r4 => (readAssignsText fuel r4).map fun x => (((spanP isIdChar s).1, v) :: x.1, x.2)
-        | none =>
-          match strip " WHERE ".toList r3 with
-          | some r5 => some ([((spanP isIdChar s).1, v)], some r5)
-          | none =>
-            match r3 with
-            | [] => some ([((spanP isIdChar s).1, v)], none)
-            | _ => none
-
-def readUpdateText (s : List Char) : Option (List Char × List (List Char × Value) × Option Ast) :=
-  match strip "UPDATE ".toList s with
-  | none => none
-  | some r =>
-    match strip " SET ".toList (spanP isIdChar r).2 with
-    | none => none
-    | some r2 =>
-      match readAssignsText (r2.length + 1) r2 with
-      | none => none
-      | some (ups, none) => some ((spanP isIdChar r).1, ups, none)
-      | some (ups, some wt) => (readText wt).map fun e => ((spanP isIdChar r).1, ups, some e)
 
 /-- the printed assignments of `fmtUpdate`, one text per assignment -/
 def assignTexts : List (List Char × Value) → Option (List (List Char))
@@ -399,54 +322,6 @@ theorem readUpdateText_fmt (t : List Char) (ups : List (List Char × Value)) (co
         simp only [this, readText_fmt e hg x hx, Option.map_some]
 
 /-! ### INSERT -/
-
-/-- values `v, v, ...)` to the closing parenthesis; returns them and the text after it -/
-def readValsText : Nat → List Char → Option (List Value × List Char)
-  | 0, _ => none
-  | fuel + 1, s =>
-    match readLit s with
-    | none => none
-    | some (v, r) =>
-      match strip ", ".toList r with
-      | some r2 => (readValsText fuel r2).map fun x => (v :: x.1, x.2)
-      | none =>
-        match strip [')'] r with
-        | some r3 => some ([v], r3)
-        | none => none
-
-/-- one row `(v, v, ...)` or `()` -/
-def readRowText (s : List Char) : Option (List Value × List Char) :=
-  match strip ['(', ')'] s with
-  | some r => some ([], r)
-  | none =>
-    match strip ['('] s with
-    | some r => readValsText (r.length + 1) r
-    | none => none
-
-/-- rows `(...), (...), ...` to the end of the text -/
-def readRowsText : Nat → List Char → Option (List (List Value))
-  | 0, _ => none
-  | fuel + 1, s =>
-    match readRowText s with
-    | none => none
-    | some (row, r) =>
-      match strip ", ".toList r with
-      | some r2 => (readRowsText fuel r2).map (row :: ·)
-      | none =>
-        match r with
-        | [] => some [row]
-        | _ => none
-
-def readInsertText (s : List Char) : Option (List Char × List (List Value)) :=
-  match strip "INSERT INTO ".toList s with
-  | none => none
-  | some r =>
-    match strip " VALUES ".toList (spanP isIdChar r).2 with
-    | some r2 => (readRowsText (r2.length + 1) r2).map fun rows => ((spanP isIdChar r).1, rows)
-    | none =>
-      match (spanP isIdChar r).2 with
-      | [] => some ((spanP isIdChar r).1, [])
-      | _ => none
 
 /-- the printed values of a row, one text per value -/
 def valTexts : List Value → Option (List (List Char))
